@@ -31,6 +31,7 @@ func (w *vfWorld) lockFree(colNum int32, key string) bool {
 
 // VF_C16_Request: mutated requests.
 func VF_C16_Request() {
+	vf.RealFormatting()
 	w := vfNewWorld()
 	w.seedCollection(vfCol, 1)
 	w.seedCollection(vfColB, 2)
@@ -68,8 +69,14 @@ func VF_C16_Request() {
 	vf.Assume(rs <= e) // nothing of the (unmaterialised) log needs to be pulled: rs = e, or any with an empty log
 	vf.Assume(vf.Any(rs == e, e == 0))
 	var ops []*model.Operation
-	if vf.Choice("nops", 2) == 1 {
+	switch vf.Choice("nops", 3) {
+	case 1:
 		ops = append(ops, vfIncOp(vfCUIDx, vf.U64("op.seq"), 1))
+	case 2: // an operation that carries no identifier (the field is optional on the wire)
+		o := vfIncOp(vfCUIDx, 1, 1)
+		o.ID = nil
+		ops = append(ops, o)
+		vf.Tag("op", "no-identifier")
 	}
 	ppp := &model.PushPullPack{Key: key, DUID: duid, Option: opt, Type: typ,
 		CheckPoint: &model.CheckPoint{Sseq: rs, Cseq: rc}, Operations: ops}
@@ -80,8 +87,14 @@ func VF_C16_Request() {
 	beforeF := w.digest(vfDUIDf, vfCUIDy)
 	beforeG := w.global()
 
-	res, err := w.pushPull(collection, vfCUIDx, ppp)
+	var res *model.PushPullPack
+	var err error
+	panicked, pmsg := vf.Try(func() { res, err = w.pushPull(collection, vfCUIDx, ppp) })
 	vf.Reach("returned")
+	if panicked {
+		vf.Tag("_panic", pmsg)
+	}
+	vf.Assert(!panicked, "C16 no request crashes the server")
 	vf.Assert(err != nil || res != nil, "C16 the request is answered with a response or an RPC error")
 	refused := err != nil
 	if res != nil {
